@@ -414,8 +414,9 @@ def c14(tier, seed, work):
     fams = [dict(name="c14-plain", module="MCGenSdr", cfg_tpl="Gen_Cipher.cfg.tpl", family="plain", tier=tier, seed=seed),
             dict(name="c14-events", module="MCGenSdr", cfg_tpl="Gen_Cipher.cfg.tpl", family="events", tier=tier, seed=seed),
             dict(name="c14-faults", module="MCGenSdr", cfg_tpl="Gen_Cipher.cfg.tpl", family="faults", tier=tier, seed=seed)]
-    muts = [("SdrWalk", "Mutant_SdrWalk_Compare.cfg", "ResultIsSnapshot"), ("SdrWalk", "Mutant_SdrWalk_KeyByOwnID.cfg", "ResultIsSnapshot")]
-    return walk_check("C14", tier, seed, work, [("SdrWalk", "MC_SdrWalk_quick.cfg" if tier == "quick" else "MC_SdrWalk.cfg")],
+    muts = [("MCSdrWalk", "Mutant_SdrWalk_Compare.cfg", "ResultIsSnapshot"), ("MCSdrWalk", "Mutant_SdrWalk_KeyByOwnID.cfg", "ResultIsSnapshot"),
+            ("MCSdrWalk", "Mutant_SdrWalk_FreshMap.cfg", "ResultIsSnapshot"), ("MCSdrWalk", "Mutant_SdrWalk_CompareEach.cfg", "ResultIsSnapshot")]
+    return walk_check("C14", tier, seed, work, [("MCSdrWalk", "MC_SdrWalk_quick.cfg" if tier == "quick" else "MC_SdrWalk.cfg")],
                       muts if tier != "quick" else [], fams,
                       "SdrWalk.tla (repository device with reservation and addition/erase time stamps; console walk with comparison and "
                       "retry) checked exhaustively: ResultIsSnapshot, KeysAreOwnIDs, EachOnce for <= 3 records over IDs {0,1,5} and <= 2 "
